@@ -26,6 +26,24 @@ class Cut(BaseException):
     """Raised inside the code under test to cut a path at a closed rejection loop."""
 
 
+class Diverged(BaseException):
+    """Raised inside the code under test when one execution uses more oracle interactions than any
+    terminating run within the stated bounds can (a changed library that loops forever must
+    become a reported outcome, not a hung check)."""
+
+
+MAX_STEPS = 1500
+
+
+class NonTermination(Exception):
+    """An execution of the code under test did not terminate: reported by the runner as a
+    VIOLATION (symptom `nontermination`) of the property being checked."""
+
+    def __init__(self, prefix):
+        Exception.__init__(self, "an execution did not terminate within %d oracle interactions" % MAX_STEPS)
+        self.prefix = tuple(prefix)
+
+
 class U(object):
     """Lazy uniform(0,1) draw seen through an affine map a*u+b.  A comparison with a number
     is a choice point (the interval of u is split at the threshold)."""
@@ -106,9 +124,16 @@ class Oracle(object):
         self._lc = None      # last `choice` call: [frame, lasti, seq, trace_index, n_usplits]
         self.ctx = ctx if ctx is not None else {}
         self.n_exp = 0
+        self.steps = 0
+
+    def _tick(self):
+        self.steps += 1
+        if self.steps > MAX_STEPS:
+            raise Diverged()
 
     # ---- core -----------------------------------------------------------------------
     def choose(self, kind, probs, info=None):
+        self._tick()
         i = len(self.trace)
         if i < len(self.prefix):
             c = self.prefix[i]
@@ -135,6 +160,7 @@ class Oracle(object):
 
     # ---- `random` module API --------------------------------------------------------
     def random(self):
+        self._tick()
         return U(self, [0.0, 1.0])
 
     def _split(self, cell, thr):
@@ -188,6 +214,7 @@ class Oracle(object):
         return [pop[i] for i in outs[c]]
 
     def expovariate(self, rate):
+        self._tick()
         self._lc = None
         if rate == 0:
             raise ZeroDivisionError("float division by zero")  # what random.expovariate(0) does
@@ -218,6 +245,7 @@ class Oracle(object):
 
     # ---- heapq ----------------------------------------------------------------------
     def heappush(self, q, item):
+        self._tick()
         self._lc = None
         self.log.append(("push", item))
         _real_heapq.heappush(q, item)
@@ -297,6 +325,8 @@ def run_once(sim, fn, prefix, exp=None, close_loops=True, heap=True):
             r.out = fn(orc)
         except Cut:
             r.cut = orc.loop_target
+        except Diverged:
+            raise NonTermination(orc.chosen()[:60])
         except HarnessError:
             raise
         except RecursionError:
